@@ -178,6 +178,7 @@ func (t *vTable) Columns() []MysqlColumn { return t.cols }
 type vMapper struct {
 	ncols   map[string]int // table name -> number of columns the mapper reports
 	failOn  string         // table name for which the lookup fails
+	uns     map[string][]bool // table name -> per-column "unsigned" answers of the mapper
 	lookups []MysqlTableName
 }
 
@@ -192,7 +193,11 @@ func (m *vMapper) MysqlTable(name MysqlTableName) (MysqlTable, error) {
 	}
 	t := &vTable{name: name}
 	for i := 0; i < n; i++ {
-		t.cols = append(t.cols, &vColumn{name: name.TableName + "_c" + string(rune('0'+i))})
+		col := &vColumn{name: name.TableName + "_c" + string(rune('0'+i))}
+		if u := m.uns[name.TableName]; i < len(u) {
+			col.unsigned = u[i]
+		}
+		t.cols = append(t.cols, col)
 	}
 	return t, nil
 }
